@@ -177,6 +177,14 @@ void c12(Tape& t, Ctx& ctx) {
       ctx.label("openmp:nested-callers");
     }
   }
+#else
+  {
+    // built without OpenMP the bundled executor falls back to a plain loop: still every segment, still bit-identical to serial
+    typename OptD::Workspace w;
+    EvalOut o = run_eval(opt, x, costs, w, OpenMPExecutor());
+    VCHECK(ctx, same_out(serial, o), "schedule-dependent", who << ": OpenMPExecutor in a build without OpenMP is not bit-identical to serial execution: " << diff_out(serial, o));
+    ctx.label("openmp:fallback-build");
+  }
 #endif
   if (ctx.want_desc) ctx.desc << "], \"schedules_run\": " << nsched;
   ctx.nontrivial = N >= 2;
